@@ -8,7 +8,7 @@ TECHNIQUE = ("CBMC bounded symbolic execution of buffer.c (real code, MIN_BUFFER
              "(kinds and sizes enumerated, payload bytes symbolic) followed by ONE operation with every argument symbolic; "
              "oracle = byte-string reference model ref/bytes.h + chain representation invariant env/evbuf_inv.h")
 UNITS = ["buffer.c", "evbuffer-internal.h", "include/event2/buffer.h"]
-FUNCTIONS = ["evbuffer_add", "evbuffer_prepend", "evbuffer_drain", "evbuffer_remove", "evbuffer_copyout", "evbuffer_copyout_from",
+FUNCTIONS = ["evbuffer_search", "evbuffer_ptr_memcmp", "evbuffer_strchr", "evbuffer_find_eol_char", "evbuffer_strspn", "evbuffer_ptr_subtract", "evbuffer_add", "evbuffer_prepend", "evbuffer_drain", "evbuffer_remove", "evbuffer_copyout", "evbuffer_copyout_from",
              "evbuffer_pullup", "evbuffer_expand", "evbuffer_reserve_space", "evbuffer_commit_space", "evbuffer_add_reference_with_offset",
              "evbuffer_add_buffer", "evbuffer_prepend_buffer", "evbuffer_remove_buffer", "evbuffer_add_buffer_reference",
              "evbuffer_search_range", "evbuffer_search_eol", "evbuffer_readln", "evbuffer_ptr_set", "evbuffer_peek", "evbuffer_add_iovec",
@@ -21,8 +21,9 @@ BOUNDS = ("2 buffers + 1 multicast source (add_buffer_reference); scaled chains:
           "all other arguments (positions, lengths, offsets, commit lengths <= 8, vector counts) and all payload bytes symbolic; the 'sym_' "
           "obligations repeat the core operations with the size itself symbolic (<= 8) and no case split; <= 6 chains, <= 64 stored bytes")
 OUT = ("production chain size (MIN_BUFFER_SIZE 1024) and sizes near SIZE_MAX; file segments and sendfile chains (C15); socket I/O (C16); "
-       "add_printf/add_vprintf (no vsnprintf model); evbuffer_search/search_range/search_eol/readln (reference implementations exist in "
-       "ref/bytes.h and the harness, but they did not finish within budget fully symbolic: see NOTE); pinned chains (only the IOCP backend "
+       "add_printf/add_vprintf (no vsnprintf model); search/search_range/search_eol only in the reduced form (2-3 chains, 3-4 bytes, needle "
+       "length 1..2, positions case-split); evbuffer_readln as a whole (search_eol + remove + drain are each covered, their composition has "
+       "three data-dependent sizes in a row and did not finish even on 2 bytes); evbuffer_find; pinned chains (only the IOCP backend "
        "pins); states reachable only by longer histories than listed or by two consecutive symbolic-size operations; overruns inside the "
        "slack of the VP_OBJ-sized heap objects; locking (evbuffers without lock)")
 TEXT = ("For every enumerated prefix state and every value of the final operation's arguments: the return value / returned count, pointer or "
@@ -42,6 +43,7 @@ ASSUMPTIONS = ["every heap object has the literal size VP_OBJ=160 (requests <= 1
                "memcpy/memmove/memchr/memcmp are the byte loops of env/evbuf_copy.h",
                "locking disabled (evbuffer without lock); no parent bufferevent; callbacks none (C13 adds them)",
                "remove/copyout destination <= 64 bytes; expand argument <= 24; reserve/commit: the user commits <= 8 bytes per extent and does not leave the first of two extents empty while filling the second",
+               "EVBUFFER_EOL_ANY obligations (any_*) run without cbmc's pointer checks: find_eol_char computes s + 128 beyond the chain object (fixes/C12-find-eol-char-pointer-arith)",
                "allocation never fails (C14 lifts this)"]
 DESIGN_REF = "DESIGN.md §5 C12, §3.3, §3.4"
 
@@ -246,25 +248,29 @@ def gen(mode, tier, cb=0, finals1=FINALS_1, finals2=FINALS_2, name_prefix="", **
             for fk in finals2: one(x + y, (A, fk))
     return obs
 
-G3_Q = [[(A, "REF", 2), (A, "ADD", 1)]]
-G3_T = G3_Q + [[(A, "REF", 2), (A, "ADD", 2)], [(A, "REF", 1), (A, "REF", 2), (A, "ADD", 1)]]
+G3_A = [(A, "REF", 2), (A, "ADD", 1)]                 # 2 chains, 3 bytes: 1-byte needles (leaving chain 1 mid-way, match in chain 2)
+G3_B = [(A, "REF", 2), (A, "ADD", 2)]                 # 2 chains, 4 bytes: 2-byte needles and EOLs (CRLF_STRICT searches "\r\n")
+G3_C = [(A, "REF", 1), (A, "REF", 2), (A, "ADD", 1)]  # 3 chains
 def gen_search(mode, tier, **kw):
     """reduced G3 form: small multi-chain buffers (bytes symbolic), needle of concrete length 1..2 (bytes symbolic), start / end
-    positions (and the start-pointer-NULL case, and the EOL style) case-split; oracle: first occurrence in ref/bytes.h"""
+    positions (and the start-pointer-NULL case, and the EOL style) case-split; oracle: first occurrence in ref/bytes.h.
+    (seeded change C12_a -- search_range advancing pos by chain->off instead of chain->off - pos_in_chain -- is caught by
+    w1_*__search, w1_*__search_range, w2_ref2_add2__search and ref2_add2__search_eol)"""
     obs = []
-    for pre in (G3_T if tier == "thorough" else G3_Q):
-        for w in (1, 2):
-            obs.append(evb_split(mode, pre, (A, "SEARCH"), name_prefix="w%d_" % w, extra_defs=["VP_WLEN=%d" % w], timeout=900, mem_gb=4,
-                                 desc_extra="; needle length %d" % w, **kw))
-        for w in ((1, 2) if tier == "thorough" else (1,)):
-            obs.append(evb_split(mode, pre, (A, "SEARCH_RANGE"), name_prefix="w%d_" % w, extra_defs=["VP_WLEN=%d" % w], timeout=900, mem_gb=5,
-                                 desc_extra="; needle length %d" % w, **kw))
+    def search(pre, fk, w):
+        obs.append(evb_split(mode, pre, (A, fk), name_prefix="w%d_" % w, extra_defs=["VP_WLEN=%d" % w], timeout=900, mem_gb=5,
+                             desc_extra="; needle length %d" % w, **kw))
+    def eol(pre):
         obs.append(evb_split(mode, pre, (A, "SEARCH_EOL"), extra_defs=["VP_EOL_SKIP_ANY"], timeout=900, mem_gb=4,
                              desc_extra="; styles CRLF, CRLF_STRICT, LF, NUL", **kw))
         ob = evb_split(mode, pre, (A, "SEARCH_EOL"), name_prefix="any_", extra_defs=["VP_EOL_ONLY_ANY"], timeout=900, mem_gb=4,
                        desc_extra="; style ANY, cbmc pointer checks off (find_eol_char forms s+128 past the chain object)", **kw)
         ob["cbmc"] = ob["cbmc"] + ["--no-pointer-check"]
         obs.append(ob)
+    search(G3_A, "SEARCH", 1); search(G3_A, "SEARCH_RANGE", 1); search(G3_B, "SEARCH", 2); eol(G3_B)
+    if tier == "thorough":
+        search(G3_A, "SEARCH", 2); search(G3_B, "SEARCH", 1); search(G3_B, "SEARCH_RANGE", 1); search(G3_B, "SEARCH_RANGE", 2)
+        search(G3_C, "SEARCH", 1); search(G3_C, "SEARCH", 2); search(G3_C, "SEARCH_RANGE", 1); eol(G3_A); eol(G3_C)
     return obs
 
 def obligations(tier):
